@@ -542,3 +542,62 @@ Proof.
     destruct (i <? 0) eqn:E1; [reflexivity|]. destruct (i >=? p_len p) eqn:E2; [reflexivity|].
     destruct H as [H|H]; [discriminate|lia].
 Qed.
+
+(* ------------------------------------------------------------------ pointer.go: Text / Data *)
+Lemma isOneByteList_inv m p : msg_ok m -> wf_ptr m p -> isOneByteList p = true ->
+  0 <= p_off p /\ 0 <= p_len p < 536870912 /\ p_off p + p_len p <= zlen (seg_of m p).
+Proof.
+  intros Hm Hw H. unfold isOneByteList, is_list, os_isOneByte in H.
+  destruct (p_valid p) eqn:V; [|discriminate]. destruct (p_kind p) eqn:K; try discriminate.
+  cbn [andb] in H.
+  destruct (DataSize (p_size p) =? 1) eqn:Ed; [|discriminate].
+  destruct (PointerCount (p_size p) =? 0) eqn:Ep; [|discriminate].
+  destruct (wf_list_inv m p (conj Hw (fun _ => K)) V) as (Hs & Ho & Hl & Hr).
+  destruct (p_bit p).
+  - destruct Hr as [Hsz _]. rewrite Hsz in Ed. cbn in Ed. discriminate.
+  - destruct Hr as [Hz Hr]. rewrite (totalSize_wf _ Hz) in Hr. lia.
+Qed.
+
+(* Ptr.Data(): the bytes handed out are exactly the list's region of its segment *)
+Lemma ptr_data_safe m p : msg_ok m -> wf_ptr m p ->
+  res_sat (ptr_data m p) (fun o => match o with
+                                   | None => True
+                                   | Some b => b = sub (seg_of m p) (p_off p) (p_len p) /\
+                                               0 <= p_off p /\ 0 <= p_len p /\
+                                               p_off p + p_len p <= zlen (seg_of m p)
+                                   end).
+Proof.
+  intros Hm Hw. unfold ptr_data. destruct (isOneByteList p) eqn:E; cbn [negb]; [|exact I].
+  destruct (isOneByteList_inv m p Hm Hw E) as (Ho & Hl & He).
+  destruct (seg_of_ok m p Hm) as [Hsl _]. unfold maxSegmentSize in Hsl.
+  rewrite u32_id by lia. rewrite slice_ok by lia. cbn [bind res_sat]. repeat split; lia.
+Qed.
+
+Lemma firstn_app_exact {A} (l1 l2 : list A) : firstn (length l1) (l1 ++ l2) = l1.
+Proof. induction l1 as [|x l IH]; cbn; [destruct l2; reflexivity|rewrite IH; reflexivity]. Qed.
+
+(* Ptr.text(): the bytes handed out are the list's region without its last byte *)
+Lemma ptr_text_safe m p : msg_ok m -> wf_ptr m p ->
+  res_sat (ptr_text m p) (fun o => match o with
+                                   | None => True
+                                   | Some b => b = sub (seg_of m p) (p_off p) (p_len p - 1) /\
+                                               0 <= p_off p /\ 0 < p_len p /\
+                                               p_off p + p_len p <= zlen (seg_of m p)
+                                   end).
+Proof.
+  intros Hm Hw. unfold ptr_text. destruct (isOneByteList p) eqn:E; cbn [negb]; [|exact I].
+  destruct (isOneByteList_inv m p Hm Hw E) as (Ho & Hl & He).
+  destruct (seg_of_ok m p Hm) as [Hsl _]. unfold maxSegmentSize in Hsl.
+  rewrite u32_id by lia. rewrite slice_ok by lia. cbn [bind].
+  pose proof (sub_length (seg_of m p) (p_off p) (p_len p) Ho ltac:(lia) He) as Hlen.
+  destruct (rev (sub (seg_of m p) (p_off p) (p_len p))) as [|last r] eqn:Er; [exact I|].
+  destruct (last =? 0); [|exact I]. cbn [res_sat].
+  assert (sub (seg_of m p) (p_off p) (p_len p) = rev r ++ [last]) as Hb.
+  { rewrite <- (rev_involutive (sub _ _ _)). rewrite Er. reflexivity. }
+  assert (zlen (rev r) = p_len p - 1) as Hrl.
+  { rewrite Hb in Hlen. unfold zlen in *. rewrite app_length in Hlen. cbn [length] in Hlen. lia. }
+  pose proof (zlen_nonneg (rev r)) as Hnn.
+  split; [|lia].
+  rewrite <- (firstn_app_exact (rev r) [last]). rewrite <- Hb.
+  unfold sub. rewrite firstn_firstn. f_equal. unfold zlen in Hrl. lia.
+Qed.
